@@ -25,6 +25,12 @@
 From Dec Require Export Base.Words L1.U64.
 Open Scope Z_scope.
 
+(* admissible destination placements: an ascending kernel writes z[i] after
+   reading the sources at i (and never reads below i again), a descending one
+   writes z[i] after reading at i and only reads below i afterwards *)
+Definition asc_ok (z x n : Z) : Prop := z <= x \/ x + n <= z.
+Definition desc_ok (z x n : Z) : Prop := x <= z \/ z + n <= x.
+
 (* ---------------------------------------------------------------- scalars *)
 Definition spec_mul10WW (x y : Z) : Z * Z := ((x * y) / B, (x * y) mod B).
 Definition spec_div10WW (x1 x0 y : Z) : Z * Z := ((x1 * B + x0) / y, (x1 * B + x0) mod y).
